@@ -538,6 +538,7 @@ def run_e2e(ctx, ch: Channel, cases=None):
             ch.count("xml_not_wellformed_recovered(C05)")
         ch.count(f"stream:{case['stream']}")
         ch.count(f"nparams:{len(case['params'])}")
+        ch.count("opt:mode")          # the operating mode travels in the path of every request
         for k in case["params"]:
             ch.count(f"opt:{k}")
         for k in set(stats["keys"]):
